@@ -194,6 +194,12 @@ func (ctx Ctx) typeParamList(fs *ast.FieldList) []coq.TypeIdent {
 	}
 	for _, f := range fs.List {
 		for _, name := range f.Names {
+			// a type parameter is a Gallina binder in scope of the whole
+			// definition, including its own "val" annotation
+			ctx.checkDefinitionName(name, name.Name)
+			if name.Name == "val" || name.Name == "ty" || name.Name == "expr" {
+				ctx.unsupported(name, "type parameter %s would capture a Gallina type of the definition", name.Name)
+			}
 			typeParams = append(typeParams, coq.TypeIdent(name.Name))
 		}
 		if len(f.Names) == 0 { // Unnamed parameter
@@ -2284,6 +2290,9 @@ var coqReservedWords = map[string]bool{
 func (ctx Ctx) checkDefinitionName(n ast.Node, name string) {
 	if coqReservedWords[name] {
 		ctx.unsupported(n, "%s is a reserved word of Coq and cannot name a definition", name)
+	}
+	if name == "λ" {
+		ctx.unsupported(n, "λ followed by a colon is a token of GooseLang's notation and cannot name a definition")
 	}
 }
 
